@@ -69,12 +69,15 @@ SeqSet(s) == {s[i] : i \in DOMAIN s}
 \*       cbs      - <<ep,sid>> -> low-threshold callbacks seen since ep's previous snapshot
 \*       ackDue   - ep -> virtual time by which ep owes a SACK for data it was handed, -1 if none
 \*       incn     - <<ep,sid>> -> incarnation counter (open/accept events)
+\*       t3h      - ep -> last T3-rtx expiry seen: time, interval since the expiry before it (0 = not consecutive),
+\*                  sender's cumulative ack point and expiry counter at that moment
 \*       wfail    - <<ep,sid>> of streams on which a write failed since ep's previous snapshot (the bytes of the
 \*                  rejected write were visible in the buffered amount only while the call was blocked)
 MiscInit == [probe |-> [e \in EP |-> -1], thr |-> <<>>, cbs |-> <<>>, ackDue |-> [e \in EP |-> -1],
              incn |-> <<>>, fwdMax |-> [e \in EP |-> -1],
              nack |-> [line |-> 0, to |-> -1, set |-> {}, hb |-> FALSE], teardown |-> FALSE, calls |-> <<>>, inj |-> <<>>, dead |-> [e \in EP |-> FALSE], abortRx |-> [e \in EP |-> FALSE], fuzzed |-> FALSE, abortSeen |-> [e \in EP |-> FALSE], shutAt |-> <<>>, shutRet |-> <<>>, closedInc |-> <<>>, wdl |-> <<>>, rdl |-> <<>>, reqs |-> <<>>, gen |-> <<>>, performed |-> {}, genAtRx |-> <<>>, rsGen |-> <<>>,
-             pendReads |-> <<>>, hbCalls |-> <<>>, hbSeen |-> {}, txn |-> [e \in EP |-> 0], wfail |-> {}, rdBase |-> <<>>]
+             pendReads |-> <<>>, hbCalls |-> <<>>, hbSeen |-> {}, txn |-> [e \in EP |-> 0], wfail |-> {}, rdBase |-> <<>>,
+             t3h |-> [e \in EP |-> [t |-> -1, iv |-> 0, cum |-> -1, n |-> -1]]]
 
 InitVars ==
   /\ scen = "" /\ cfg = [none |-> TRUE]
@@ -634,6 +637,13 @@ SnapViol(s, R) ==
   IN
     (IF badWindow # {} THEN {V("C10_Window", <<e, nd[Min(badWindow)].tsn, nd[Min(badWindow)].after, s.cwnd, arw[e]>>)} ELSE {})
     \cup (IF Established(s) /\ s.cwnd < mtu THEN {V("C10_CwndFloor", <<e, s.cwnd>>)} ELSE {})
+    \* C19: consecutive T3-rtx expiries with no progress of the cumulative ack point in between back off:
+    \* each interval is twice the one before, capped at RTO.max (only a SACK acknowledging the earliest
+    \* outstanding chunk, or an empty flight, restarts the timer afresh)
+    \cup (LET h == misc.t3h[e]
+              cap == IF Cfg(e).rtomax > 0 THEN MaxI(Cfg(e).rtomax, 1000) ELSE 60000
+          IN IF loss /\ h.t >= 0 /\ h.cum = s.cumack /\ h.n + 1 = s.nt3 /\ h.iv > 0 /\ s.t - h.t < MinI(2 * h.iv, cap)
+             THEN {V("C19_T3Backoff", <<e, h.iv, s.t - h.t, s.cumack>>)} ELSE {})
     \cup (IF loss /\ Established(s) /\ (s.cwnd # floorC \/ s.ssthresh # half(prev.cwnd))
           THEN {V("C10_T3Cut", <<e, prev.cwnd, s.cwnd, s.ssthresh>>)} ELSE {})
     \* the SACK that triggers fast recovery may first have advanced the cumulative ack point, which grows cwnd
@@ -643,6 +653,12 @@ SnapViol(s, R) ==
     \cup (IF onlyData /\ sk # <<>> /\ (sk.cum # s.rcum \/ GapTSNs(sk) # SeqSet(s.held))
           THEN {V("C05_CompleteNow", <<e, sk.cum, s.rcum>>)} ELSE {})
     \cup (IF s.nheld > Cfg(e).W THEN {V("C11_Bounded", <<e, s.nheld>>)} ELSE {})
+    \* C11: with a zero advertised window only chunks that fill gaps below the highest TSN already received are stored
+    \cup (IF prev # NoSnap /\ prev.arwnd = 0 /\ dataHanded
+          THEN LET hiRecv == MaxI(prev.rcum, IF prev.held = <<>> THEN prev.rcum ELSE Max(SeqSet(prev.held)))
+               IN {V("C11_ZeroWindowAccept", <<e, c.tsn, hiRecv>>) :
+                     c \in {d \in dataCs : d.tsn > hiRecv /\ d.tsn \notin acc[e] /\ (d.tsn \in SeqSet(s.held) \/ d.tsn <= s.rcum)}}
+          ELSE {})
     \cup (IF \E i \in DOMAIN s.held : s.held[i] > s.rcum + Cfg(e).W THEN {V("C11_Window", <<e, s.rcum>>)} ELSE {})
     \cup (IF \E i \in DOMAIN s.held : s.held[i] \notin rcvd[e] THEN {V("C05_HeldReceived", <<e, s.rcum>>)} ELSE {})
     \* C11: the bytes each registered stream holds are exactly what the specification's reassembly holds
@@ -701,7 +717,7 @@ AdvIgnore == {"sack-cum-beyond-sent", "sack-cum-far-beyond", "sack-cum-behind", 
               "init-bundled", "init-zero-streams", "cookie-ack", "shutdown-complete",
               "error-cause-bad-length", "reconfig-response-unknown", "reconfig-unknown-param", "reconfig-empty",
               "chunk-len-zero", "chunk-len-beyond", "sack-truncated", "port-zero", "only-header", "short-garbage"}
-AdvAbort == {"data-wrong-kind", "fwd-wrong-variant"}
+AdvAbort == {"data-wrong-kind", "data-wrong-kind-dup-tsn", "data-wrong-kind-beyond-window", "fwd-wrong-variant"}
 AdvViol(e, changed) ==
   LET isRx == step.ev = "rx" /\ step.to = e /\ step.ok /\ step.pid \in DOMAIN pkt /\ pkt[step.pid].forged /\ ~pkt[step.pid].genuine
       p == pkt[step.pid]
@@ -735,6 +751,10 @@ SnapStep(s, changed) ==
   /\ newData' = [newData EXCEPT ![e] = <<>>]
   /\ sackEv' = [sackEv EXCEPT ![e] = <<>>]
   /\ misc' = [misc EXCEPT !.cbs = [k \in DOMAIN @ |-> IF k[1] = e THEN 0 ELSE @[k]], !.txn[e] = 0, !.abortSeen[e] = FALSE, !.rsGen = x.G, !.wfail = {k \in @ : k[1] # e},
+                           !.t3h[e] = IF sn[e] # NoSnap /\ s.nt3 > sn[e].nt3
+                                      THEN [t |-> s.t, cum |-> s.cumack, n |-> s.nt3,
+                                            iv |-> IF @.t >= 0 /\ @.cum = s.cumack /\ @.n + 1 = s.nt3 THEN s.t - @.t ELSE 0]
+                                      ELSE @,
                            !.pendReads = SelectSeq(@, LAMBDA r : r.ep # e)]
   /\ viol' = viol \cup SnapViol(s, x.R) \cup AckLate(s.t) \cup CkViol(e, changed) \cup AdvViol(e, changed) \cup x.rv
 
@@ -758,6 +778,8 @@ TrSame ==
 EndViol(e) ==
   (IF ~e.clean THEN {V("C09_NoLeak", <<e.leaks, IF "stacks" \in DOMAIN e THEN e.stacks[1] ELSE "">>)} ELSE {})
   \cup {V("C09_CallsReturn", <<misc.calls[c].ep, misc.calls[c].op>>) : c \in DOMAIN misc.calls}
+  \* after teardown (Close returned / the transport was closed and 2 s passed) no timer of the association is armed
+  \cup (IF "timers" \in DOMAIN e THEN {V("C09_TimersStopped", <<e.timers[i]>>) : i \in DOMAIN e.timers} ELSE {})
 
 TrEnd ==
   /\ IsEv("end")
@@ -779,6 +801,15 @@ TrDeadlock ==
        /\ viol' = {}
   /\ l' = l + 1
   /\ UNCHANGED <<scen, cfg, msg, order, reads, ch, hi, pkt, rcvd, skipTo, ackCum, ackGap, arw, outst, lastSack, sackEv, sn, step, newData, misc, rs, acc>>
+
+\* testing/synctest reported, after the scenario function had returned, that goroutines of the bubble were still
+\* blocked for good (a call or background goroutine that never terminates): logged after the scenario's `end`
+TrBubbleLeak ==
+  /\ IsEv("bubbleleak")
+  /\ PrintT(<<"VFSCEN", scen, 1, l>>)
+  /\ PrintT(<<"VFVIOL", ToJson(V("C09_NoLeak", <<"blocked goroutines remain at bubble exit", E.name>>))>>)
+  /\ l' = l + 1
+  /\ UNCHANGED <<scen, cfg, msg, order, reads, ch, hi, pkt, rcvd, skipTo, ackCum, ackGap, arw, outst, lastSack, sackEv, sn, step, newData, misc, rs, acc, viol>>
 
 (***************************************************************************)
 (* Events that only open a step or carry information used by other specs   *)
@@ -981,7 +1012,7 @@ TrPassive ==
   /\ UNCHANGED <<scen, cfg, msg, order, reads, ch, hi, pkt, rcvd, skipTo, ackCum, ackGap, arw, outst, lastSack, sackEv, sn, newData, misc, rs, acc, viol>>
 
 Next == TrCfg \/ TrWCall \/ TrWrite \/ TrRead \/ TrTx \/ TrForge \/ TrChunkData \/ TrChunkSack \/ TrChunkFwd \/ TrChunkShutdown \/ TrChunkReconfig \/ TrChunkHb \/ TrChunkOther
-        \/ TrRx \/ TrSnap \/ TrSame \/ TrEnd \/ TrApi \/ TrCb \/ TrTick \/ TrExpect \/ TrDiff \/ TrHsFinal \/ TrHsSpecial \/ TrShutEnd \/ TrAdvEnd \/ TrCall \/ TrRet \/ TrInject \/ TrCrashObs \/ TrTxFail \/ TrStormEnd \/ TrPassive \/ TrDeadlock
+        \/ TrRx \/ TrSnap \/ TrSame \/ TrEnd \/ TrApi \/ TrCb \/ TrTick \/ TrExpect \/ TrDiff \/ TrHsFinal \/ TrHsSpecial \/ TrShutEnd \/ TrAdvEnd \/ TrCall \/ TrRet \/ TrInject \/ TrCrashObs \/ TrTxFail \/ TrStormEnd \/ TrPassive \/ TrDeadlock \/ TrBubbleLeak
 
 Spec == Init /\ [][Next]_vars
 
